@@ -89,6 +89,104 @@ pub fn run_cli(args: &[&str], timeout_s: u64) -> Result<(i32, String, String), S
     Ok((code, out, err))
 }
 
+/// CPU time consumed so far by the calling thread (nanoseconds): a measure of work that does not depend on how
+/// loaded the machine is
+pub fn thread_cpu_ns() -> u64 {
+    #[cfg(not(miri))]
+    unsafe {
+        let mut ts: libc::timespec = std::mem::zeroed();
+        libc::clock_gettime(libc::CLOCK_THREAD_CPUTIME_ID, &mut ts);
+        return ts.tv_sec as u64 * 1_000_000_000 + ts.tv_nsec as u64;
+    }
+    #[cfg(miri)]
+    0
+}
+
+/// Run the real binary with its standard output going to a regular file that may grow to `limit` bytes only
+/// (RLIMIT_FSIZE, SIGXFSZ ignored, so the write fails with EFBIG or is cut short). Returns (exit code, bytes in
+/// the file, stderr). Fault injection at the output: whatever the tool does then, exit status 0 must mean that
+/// the complete output was delivered.
+pub fn run_cli_output_limited(args: &[&str], limit: u64, tag: &str) -> Result<(i32, Vec<u8>, String), String> {
+    use std::os::unix::process::CommandExt;
+    use std::process::{Command, Stdio};
+    let path = format!("/verif/target/checktmp/fsize-{}-{}.out", std::process::id(), tag);
+    let _ = std::fs::create_dir_all("/verif/target/checktmp");
+    let f = std::fs::File::create(&path).map_err(|e| e.to_string())?;
+    let mut cmd = Command::new(BIN);
+    cmd.args(args).stdin(Stdio::null()).stdout(Stdio::from(f)).stderr(Stdio::piped());
+    unsafe {
+        cmd.pre_exec(move || {
+            let lim = libc::rlimit { rlim_cur: limit, rlim_max: limit };
+            libc::setrlimit(libc::RLIMIT_FSIZE, &lim);
+            libc::signal(libc::SIGXFSZ, libc::SIG_IGN);
+            Ok(())
+        });
+    }
+    let child = cmd.spawn().map_err(|e| format!("cannot run {}: {}", BIN, e))?;
+    let out = child.wait_with_output().map_err(|e| e.to_string())?;
+    use std::os::unix::process::ExitStatusExt;
+    let code = out.status.code().unwrap_or_else(|| 128 + out.status.signal().unwrap_or(0));
+    let data = std::fs::read(&path).unwrap_or_default();
+    let _ = std::fs::remove_file(&path);
+    Ok((code, data, String::from_utf8_lossy(&out.stderr).to_string()))
+}
+
+/// exit status 0 with an output that is not the complete expected text = violation
+pub fn check_cli_output_fault(l: &mut Local, what: &str, args: &[&str], full_len: usize, tag: &str) {
+    let limit = (full_len as u64 / 3).max(1);
+    l.eval();
+    match run_cli_output_limited(args, limit, tag) {
+        Err(e) => l.inconclusive(format!("cli {:?} with limited output: {}", args, e)),
+        Ok((code, data, err)) => {
+            if code == 0 && data.len() < full_len {
+                l.violation(
+                    format!("{}: exit status 0 although only part of the output could be written (output file limited in size)", what),
+                    J::obj().set("args", format!("{:?}", args)).set("bytes_written", data.len()).set("bytes_of_complete_output", full_len).set("file_size_limit", limit).set("stderr", err.chars().take(200).collect::<String>()),
+                );
+            } else {
+                l.count("cli_runs_with_output_fault");
+                l.seen("cli_exit_status_under_output_fault", code.to_string());
+            }
+        }
+    }
+}
+
+/// h() called from other execution contexts: inside rayon pools whose thread counts do not divide anything nicely
+/// (3, 6, 12 threads), and from inside a parallel iterator of the global pool; the matrix must not depend on it
+pub fn build_in_contexts<F>(l: &mut Local, name: &str, reference: &SparseMatrix, build: F)
+where
+    F: Fn() -> SparseMatrix + Send + Sync,
+{
+    use rayon::prelude::*;
+    for ctx in 0..4 {
+        l.eval();
+        let cname = ["rayon pool of 3 threads", "rayon pool of 6 threads", "rayon pool of 12 threads", "parallel iterator of the global pool"][ctx];
+        let res = guard(|| match ctx {
+            0 | 1 | 2 => {
+                let pool = rayon::ThreadPoolBuilder::new().num_threads([3, 6, 12][ctx]).build().expect("pool");
+                pool.install(|| build())
+            }
+            _ => (0..2).into_par_iter().map(|_| build()).collect::<Vec<_>>().pop().unwrap(),
+        });
+        match res {
+            Err(p) => l.violation(format!("{}: h() panicked when called inside a {}: {}", name, cname, panic_class(&p)), J::obj().set("code", name)),
+            Ok(h) => {
+                if &h != reference {
+                    let d = crate::genm::from_sparse(&h);
+                    let r = crate::genm::from_sparse(reference);
+                    let ndiff = d.iter().filter(|x| r.binary_search(x).is_err()).count() + r.iter().filter(|x| d.binary_search(x).is_err()).count();
+                    l.violation(
+                        format!("{}: the matrix depends on the execution context h() is called from", name),
+                        J::obj().set("code", name).set("context", cname).set("entries_that_differ", ndiff),
+                    );
+                    return;
+                }
+                l.count("constructions_in_other_contexts");
+            }
+        }
+    }
+}
+
 /// The harness' own copy of Tables 5a/5b (k) and the column-degree profile of the information part
 pub struct Spec {
     pub name: &'static str,
@@ -133,7 +231,24 @@ pub fn check_encoder(l: &mut Local, name: &str, h: &SparseMatrix, e: &[(usize, u
     let k = n - r;
     l.eval();
     let t0 = std::time::Instant::now();
-    let enc = match guard(|| Encoder::from_h(h)) {
+    let c0 = thread_cpu_ns();
+    let built = guard(|| Encoder::from_h(h));
+    let cpu = thread_cpu_ns().saturating_sub(c0);
+    // linear-time clause, in a load-independent form: CPU time of the construction per one of H. A single pass costs
+    // some tens of nanoseconds per entry; anything quadratic in the number of checks costs tens of microseconds
+    // for the low-rate codes. The bound leaves a factor of about 200 (and nothing is judged below one second).
+    let nnz = e.len().max(1) as f64;
+    let per_entry = cpu as f64 / nnz;
+    if must_be_staircase && !cfg!(miri) {
+        l.max("encoder_build_cpu_ns_per_entry_of_H", per_entry);
+        if cpu > 1_000_000_000 && per_entry > 10_000.0 {
+            l.violation(
+                format!("{}: building the encoder is not linear-time work (CPU time per entry of H)", name),
+                J::obj().set("code", name).set("cpu_seconds", cpu as f64 / 1e9).set("ones_in_H", e.len()).set("cpu_ns_per_entry", per_entry).set("bound_ns_per_entry", 10_000),
+            );
+        }
+    }
+    let enc = match built {
         Err(p) => {
             l.violation(format!("{}: Encoder::from_h panicked: {}", name, panic_class(&p)), J::obj().set("code", name).set("panic", p));
             return;
@@ -343,11 +458,11 @@ fn check_cli(l: &mut Local, sp: &Spec, pins: &Option<J>) {
 }
 
 pub fn run(run: &mut Run, extra: &[String]) {
-    run.rule = "EXHAUSTIVE over the 21 Code variants (harness' own table of n, k and degree profile from EN 302 307-1 Tables 5a/5b): dimensions, 360-column shift law with q=(n-k)/360, column-degree profile, exact dual-diagonal parity part, own 4-cycle detector, Encoder::from_h accepts it with the linear-time (Staircase) encoder and encodes systematic codewords (3 messages quick / 24 thorough), girth 6 for normal 1/2 by own bounded BFS and by girth() (all codes in thorough), SHA-256 of the canonical entry list vs /verif/pinned/pins.json, the same digest for the matrix printed by the real binary for the (rate, short) identifier, and all 441 ordered pairs (a, b) of codes constructed back to back on one fresh thread (each result must equal the matrix built on a fresh thread); every configuration is non-trivial".into();
+    run.rule = "EXHAUSTIVE over the 21 Code variants (harness' own table of n, k and degree profile from EN 302 307-1 Tables 5a/5b): dimensions, 360-column shift law with q=(n-k)/360, column-degree profile, exact dual-diagonal parity part, own 4-cycle detector, Encoder::from_h accepts it with the linear-time (Staircase) encoder and encodes systematic codewords (3 messages quick / 24 thorough), girth 6 for normal 1/2 by own bounded BFS and by girth() (all codes in thorough), SHA-256 of the canonical entry list vs /verif/pinned/pins.json, the same digest for the matrix printed by the real binary for the (rate, short) identifier, and all 441 ordered pairs (a, b) of codes constructed back to back on one fresh thread (each result must equal the matrix built on a fresh thread); h() called inside rayon pools of 3/6/12 threads and inside a parallel iterator; CPU time of Encoder::from_h per entry of H (linear-time clause, bound 10 us per entry); for a third of the identifiers the binary is also run with its output file limited to a third of the alist (exit 0 must mean complete output); every configuration is non-trivial".into();
     run.exhaustive = Some(true);
     run.assumptions = vec![
         "k table and degree profiles are the harness author's transcription of EN 302 307-1; pins are regression digests taken from the repaired tree after all structural checks passed (they cannot by themselves prove equality with the printed annexes)".into(),
-        "linear-time clause is observed through the encoder's Debug output (Staircase vs DenseGenerator)".into(),
+        "linear-time clause is observed through the encoder's Debug output (Staircase vs DenseGenerator) and through the thread CPU time of the construction per entry of H (bound 200 times above what a single pass needs)".into(),
     ];
     // monitor honesty: the digest really is SHA-256
     {
@@ -398,9 +513,28 @@ pub fn run(run: &mut Run, extra: &[String]) {
             Err(_) => l.inconclusive("history thread could not be joined".to_string()),
         }
     });
+    if !reference.is_empty() && !cfg!(miri) {
+        run.sub("construction-contexts", sp.len() as u64, |l, idx, _rng| {
+            let c = sp[idx as usize].code;
+            build_in_contexts(l, sp[idx as usize].name, &reference[idx as usize], move || c.h());
+            let mut d = Dig::new();
+            d.s("ctx").u(idx);
+            l.nt(d.get());
+        });
+    }
     if std::path::Path::new(BIN).exists() {
         run.sub("cli-identifiers", sp.len() as u64, |l, idx, _rng| {
             check_cli(l, &sp[idx as usize], &pins);
+            // fault at the output for a third of the identifiers
+            if idx % 3 == 0 && !reference.is_empty() {
+                let s = &sp[idx as usize];
+                let mut args = vec!["dvbs2", "--rate", s.rate];
+                if s.short {
+                    args.push("--short");
+                }
+                let full = reference[idx as usize].alist().len() + 1;
+                check_cli_output_fault(l, s.name, &args, full, &format!("c06-{}", idx));
+            }
         });
     } else {
         run.merged.inconclusive(format!("binary {} not built: command-line identifiers not checked", BIN));
